@@ -6,11 +6,14 @@ pub fn lang_by_name(n: &str) -> Option<LangId> {
     crate::langs::ALL_LANGS.iter().copied().find(|l| format!("{:?}", l).eq_ignore_ascii_case(n))
 }
 
+thread_local! { static LANG: std::cell::RefCell<String> = std::cell::RefCell::new(String::new()); }
+
 pub fn run(lang: LangId, script: &str) {
+    LANG.with(|l| *l.borrow_mut() = format!("{:?}", lang));
     crate::with_lang!(lang, L => run_l::<L>(script))
 }
 
-fn run_l<L: Language>(script: &str) {
+fn run_l<L: Language + 'static>(script: &str) {
     let mut eg: EGraph<L> = EGraph::default();
     let mut ids: Vec<AppliedId> = Vec::new();
     for cmd in script.split(';') {
@@ -44,6 +47,16 @@ fn run_l<L: Language>(script: &str) {
             "lookup" => {
                 let re = RecExpr::<L>::parse(rest).unwrap();
                 println!("lookup {} = {:?}", rest, lookup_rec_expr(&re, &eg));
+            }
+            "intern" => {
+                for n in rest.split_whitespace() {
+                    let _ = Slot::named(n.trim_start_matches('$'));
+                }
+            }
+            "rewrite" => {
+                let pool = crate::mixed::rule_pool(crate::script::lang_by_name(LANG.with(|l| l.borrow().clone()).as_str()).unwrap());
+                let rules: Vec<Rewrite<L, ()>> = rest.split(',').map(|n| crate::mixed::build_rule::<L, ()>(pool.iter().find(|r| r.name == n.trim()).expect("rule"))).collect();
+                println!("rewrite -> {}", apply_rewrites(&mut eg, &rules));
             }
             "check" => {
                 eg.check();
